@@ -27,7 +27,7 @@ reg("C19", "exploration", "bounded-exhaustive enumeration of a URL grammar produ
 _SEQ_NOTE = ("Trusted: the simulated NetworkBackend (public interface only) with its ledger, the independent peers/parsers in mc/simnet, the reference model written in the check. "
              "Single caller; bounded alphabets as listed in the evidence.")
 reg("C03", "exploration", "bounded-exhaustive enumeration of request shapes on the real code with an independent wire decoder as oracle",
-    "Full product of method x target x header sequence x body form, HTTP/1.1 and HTTP/2, sync and async, first use and reuse: the bytes received by the simulated peer are decoded by an independent HTTP/1.1 parser / frame-level HTTP/2 peer and compared with the caller's request; illegal heads must raise LocalProtocolError with nothing written (HTTP/1.1).",
+    "Full product of method x target x header sequence x body form, HTTP/1.1 and HTTP/2, sync and async, first use and reuse (a sub-product again over the ten other connection types; transparent re-sends and cancellation of a caller sharing an HTTP/2 connection on the virtual loop): the bytes received by the simulated peer are decoded by an independent HTTP/1.1 parser / frame-level HTTP/2 peer and compared with the caller's request; illegal heads must raise LocalProtocolError with nothing written (HTTP/1.1).",
     _SEQ_NOTE, "DESIGN.md 5 C03")
 reg("C10", "exploration", "exhaustive enumeration of the configuration product and of near-miss origin sequences, judged from the backend ledger and the receiving peer",
     "Every combination of scheme, port form, proxy mode, http1/http2 switches, ALPN outcome and sni_hostname, and every request sequence of length 2-3 over origin pairs that differ in one component: destination, TLS-iff-https/wss, SNI, ALPN offer and protocol choice are read from what the simulated peers saw.",
@@ -39,19 +39,19 @@ reg("C20", "fault_enumeration", "exhaustive enumeration of the prefix-closed tre
     "Every outcome sequence (success / ConnectError / ConnectTimeout / unrelated failure at TCP-or-UDS and TLS stage, then exchange ok/failed) for retries 0..4: attempts, pauses, raised error and absence of post-establishment retries are compared with a 30-line reference model.",
     _SEQ_NOTE, "DESIGN.md 5 C20")
 reg("C09", "model_checking", "explicit-state BFS over pool operation sequences with a virtual clock; every transition judged against the property's rules from observed pre/post states",
-    "All sequences (depth 4 quick / 5 thorough) of request/open/close/tick/server-close over three origins per pool configuration, HTTP/1.1 and HTTP/2, both variants; states merged so deeper states are reached by chaining; rules R1 reuse, R2 idle limit, R3 dead connections never used and closed, R4 every close of a healthy idle connection explained.",
+    "All sequences (depth 4 quick / 5 thorough) of request/open/close/tick/server-close over three origins per pool configuration, HTTP/1.1 and HTTP/2, both variants (and, shallower, all ten TLS / negotiated / proxied connection types); every removal from the pool is judged against what the pool holds at that moment; states merged so deeper states are reached by chaining; rules R1 reuse, R2 idle limit, R3 dead connections never used and closed, R4 every close of a healthy idle connection explained.",
     _SEQ_NOTE + " time.monotonic in http11/http2 is redirected to the virtual clock by rebinding the module-level name.", "DESIGN.md 5 C09")
 reg("C11", "exploration", "exhaustive enumeration of proxy configurations and proxy replies, judged from the bytes the simulated proxy saw before/after the tunnel boundary",
-    "Full product of proxy kind, credentials, proxy headers (with case-insensitive collisions), origin, request headers/body and proxy reply (CONNECT statuses, SOCKS method/auth/connect replies); the proxy peer's own byte-level parsers decide what reached which hop.",
+    "Full product of proxy kind, credentials, proxy headers (with case-insensitive collisions), origin (incl. IP literals), request headers/body, request extensions (sni_hostname, target) and proxy reply (CONNECT statuses, SOCKS method/auth/connect replies); the proxy peer's own byte-level parsers decide what reached which hop.",
     _SEQ_NOTE, "DESIGN.md 5 C11")
 reg("C16", "model_checking", "ledger-based enumeration of timeout configurations with one read cut anywhere (explorer, bound 1) + pool-timeout scenarios on the virtual clock",
-    "Every simulated connect/start_tls/read/write of every connection type records its timeout argument and is compared with the configured value for 10 configurations; all orders of deadline vs release for queued requests, PoolTimeout exactly at enqueue+T.",
+    "The limit in effect at every OS-level operation of the real sync/anyio/trio backends (settimeout value, innermost fail_after scope) is recorded too; PoolTimeout also under trio. Every simulated connect/start_tls/read/write of every connection type records its timeout argument and is compared with the configured value for 10 configurations; all orders of deadline vs release for queued requests, PoolTimeout exactly at enqueue+T.",
     _SEQ_NOTE, "DESIGN.md 5 C16")
 reg("C17", "model_checking", "explicit-state search over all read segmentations x all caller max_bytes sequences of the upgrade hand-over",
     "For 101 and CONNECT-2xx with 0..10 post-head bytes: every cut of the byte stream and every sequence of max_bytes in {1,2,3,5,64KiB}; the upgraded stream must yield exactly the post-head bytes, writes pass through, the connection is closed and never pooled again.",
     _SEQ_NOTE, "DESIGN.md 5 C17")
 reg("C15", "exploration", "bounded-exhaustive enumeration of peer input (all single-point mutations of valid conversations, structured HTTP/2 frames, token sequences) + fault enumeration",
-    "Every single-point mutation at every offset of valid HTTP/1.1, HTTP/2, CONNECT and SOCKS5 conversations, frame type x flags x stream id x payload x position, HPACK/:status variants, all token sequences up to length 3/4, and every injected backend exception at every operation: the call must end with success or a documented httpcore exception whose class matches the cause, and must terminate.",
+    "The real sync/anyio/trio backends run over OS-level fakes with every OS/runtime exception at every OS-level operation; every single-point mutation at every offset of valid HTTP/1.1, HTTP/2, CONNECT and SOCKS5 conversations, frame type x flags x stream id x payload x position, HPACK/:status variants, all token sequences up to length 3/4, and every injected backend exception at every operation: the call must end with success or a documented httpcore exception whose class matches the cause, and must terminate.",
     _SEQ_NOTE, "DESIGN.md 5 C15")
 reg("C12", "model_checking", "explicit-state exploration of the real HTTP/2 connection on a virtual event loop against a frame-level peer whose events the explorer orders",
     "All orders of per-stream HEADERS/DATA/END_STREAM/RST_STREAM, SETTINGS(MAX_CONCURRENT_STREAMS up/down/below in flight) and PING relative to 2-4 concurrent requests; token echo per stream, open-stream count by the peer's own books at every new stream, deadlock detection.",
